@@ -386,6 +386,105 @@ where
       off := o + s * (if f.len = 0 then 1 else f.len)
     some out
 
+/-! ## GLSL: std430 / std140 layout of the declarations the GLSL back end wrote
+
+The GLSL writer emits no `offset` qualifiers, so the position of every member of an interface block is what the block's
+layout qualifier prescribes (OpenGL 4.6 §7.6.2.2): scalars N = 4; vec2 2N, vec3 / vec4 4N; an array's element stride is
+the element size rounded up to the element alignment — and both rounded up to 16 under std140; a column-major matCxR is
+an array of C column vectors; a structure is aligned to its largest member (rounded up to 16 under std140) and padded to
+a multiple of that. -/
+
+structure GlslField where
+  ty : String
+  name : String
+  dims : List Nat         -- `T name[d1][d2]`: outermost first
+  deriving Repr, Inhabited
+
+structure GlslDecl where
+  name : String
+  fields : List GlslField
+  deriving Repr, Inhabited
+
+def glslVec (n : String) : Option Nat :=
+  if n == "vec2" || n == "ivec2" || n == "uvec2" || n == "bvec2" then some 2
+  else if n == "vec3" || n == "ivec3" || n == "uvec3" || n == "bvec3" then some 3
+  else if n == "vec4" || n == "ivec4" || n == "uvec4" || n == "bvec4" then some 4 else none
+
+def glslMat (n : String) : Option (Nat × Nat) :=   -- (columns, rows)
+  match n with
+  | "mat2" | "mat2x2" => some (2, 2) | "mat2x3" => some (2, 3) | "mat2x4" => some (2, 4)
+  | "mat3x2" => some (3, 2) | "mat3" | "mat3x3" => some (3, 3) | "mat3x4" => some (3, 4)
+  | "mat4x2" => some (4, 2) | "mat4x3" => some (4, 3) | "mat4" | "mat4x4" => some (4, 4)
+  | _ => none
+
+def vecSA (n : Nat) : Nat × Nat := if n == 2 then (8, 8) else if n == 3 then (12, 16) else (16, 16)
+
+mutual
+  /-- (size, alignment) of a type name -/
+  def glslSA (std140 : Bool) (decls : List GlslDecl) : Nat → String → Option (Nat × Nat)
+    | 0, _ => none
+    | fuel + 1, n =>
+      if n == "float" || n == "int" || n == "uint" || n == "bool" then some (4, 4) else
+      match glslVec n with
+      | some k => some (vecSA k)
+      | none =>
+        match glslMat n with
+        | some (c, r) =>
+          let (cs, ca) := vecSA r
+          let a := if std140 then cppRound 16 ca else ca
+          let stride := cppRound a cs
+          some (stride * c, a)
+        | none =>
+          match decls.find? (·.name == n) with
+          | none => none
+          | some d => do
+            let (e, a) ← glslStructEnd std140 decls fuel d.fields 0 0
+            let a := if std140 then cppRound 16 a else a
+            some (cppRound a e, a)
+  /-- (size, alignment) of `T[d1][d2]…` -/
+  def glslArrSA (std140 : Bool) (decls : List GlslDecl) : Nat → String → List Nat → Option (Nat × Nat)
+    | 0, _, _ => none
+    | fuel + 1, t, [] => glslSA std140 decls fuel t
+    | fuel + 1, t, d :: ds => do
+      let (s, a) ← glslArrSA std140 decls fuel t ds
+      let a := if std140 then cppRound 16 a else a
+      some (cppRound a s * d, a)
+  /-- (end offset, largest alignment) after laying out the fields from `off` -/
+  def glslStructEnd (std140 : Bool) (decls : List GlslDecl) : Nat → List GlslField → Nat → Nat → Option (Nat × Nat)
+    | 0, _, _, _ => none
+    | _, [], off, al => some (off, al)
+    | fuel + 1, f :: fs, off, al => do
+      let (s, a) ← glslArrSA std140 decls fuel f.ty f.dims
+      glslStructEnd std140 decls fuel fs (cppRound a off + s) (max al a)
+end
+
+mutual
+  /-- the numbers `specDumpNoLeaf` lists, for a type name under the GLSL layout -/
+  def glslDump (std140 : Bool) (decls : List GlslDecl) : Nat → String → Option (List Nat)
+    | 0, _ => none
+    | fuel + 1, n =>
+      match decls.find? (·.name == n) with
+      | none => some []              -- scalar, vector, matrix: a leaf
+      | some d => do
+        let (sz, _) ← glslSA std140 decls (fuel + 1) n
+        some (sz :: (← glslDumpFields std140 decls fuel d.fields 0))
+  def glslDumpFields (std140 : Bool) (decls : List GlslDecl) : Nat → List GlslField → Nat → Option (List Nat)
+    | 0, _, _ => none
+    | _, [], _ => some []
+    | fuel + 1, f :: fs, off => do
+      let (s, a) ← glslArrSA std140 decls fuel f.ty f.dims
+      let o := cppRound a off
+      some (o :: ((← glslDumpArr std140 decls fuel f.ty f.dims) ++ (← glslDumpFields std140 decls fuel fs (o + s))))
+  /-- an array contributes its element stride, then the element -/
+  def glslDumpArr (std140 : Bool) (decls : List GlslDecl) : Nat → String → List Nat → Option (List Nat)
+    | 0, _, _ => none
+    | fuel + 1, t, [] => glslDump std140 decls fuel t
+    | fuel + 1, t, _ :: ds => do
+      let (s, a) ← glslArrSA std140 decls fuel t ds
+      let a := if std140 then cppRound 16 a else a
+      some (cppRound a s :: (← glslDumpArr std140 decls fuel t ds))
+end
+
 mutual
   /-- `specDump` without the sizes of scalar/vector/matrix leaves. -/
   def specDumpNoLeaf : Ty → List Nat
